@@ -203,11 +203,11 @@ Theorem prom_labels_fetch_date_covers : forall cluster fps from_ms to_ms,
 Proof. exact labels_fetch_date_covers. Qed.
 Print Assumptions prom_labels_fetch_date_covers.
 
-(* ... and no type conjunct (finding prom-labels-fetch-untyped) *)
-Theorem prom_labels_fetch_bounded_refuted : forall cluster fps from_ms to_ms,
-  ~ Forall (scan_bounded table_info (fetch_win from_ms to_ms)) (scans (labels_fetch cluster fps from_ms to_ms)).
-Proof. exact labels_fetch_untyped. Qed.
-Print Assumptions prom_labels_fetch_bounded_refuted.
+(* ... and type IN (2,0) (repair e42718a of prom-labels-fetch-untyped; replaces prom_labels_fetch_bounded_refuted): the read is bounded *)
+Theorem prom_labels_fetch_every_scan_bounded : forall cluster fps from_ms to_ms,
+  Forall (scan_bounded table_info (fetch_win from_ms to_ms)) (scans (labels_fetch cluster fps from_ms to_ms)).
+Proof. exact labels_fetch_bounded. Qed.
+Print Assumptions prom_labels_fetch_every_scan_bounded.
 
 (* ---- Pyroscope stream selector (model/ProfSel.v, C17: StreamSelectorPlanner, the fingerprint selection every
    Pyroscope label / series / merge / render request starts from): for every selector list and window, the read of
